@@ -30,10 +30,16 @@ package parser
 //@   ensures  (&ial.pendingTokens).ndeq == old((&ial.pendingTokens).ndeq)
 //@   ensures  "buffer-same-or-fresh": ial.bufOK()
 //
+// Indentation that mixes tabs and spaces is refused (C05): the function panics exactly when the text of the
+// NEWLINE token contains both a space and a tab (FromReader turns the panic into an error), and otherwise
+// returns the width with a tab counting 8.
 //@ func (ial *IndentAwareLexer) getLengthOfNewlineToken(currentToken antlr.Token) (res int)
 //@   requires dyntype(currentToken) != 0
+//@   panics   "mixed-indentation": hasRune(tokText(currentToken), 32) && hasRune(tokText(currentToken), 9)
 //@   ensures  "non-negative": res >= 0
-//@   loop 0: invariant length >= 0
+//@   loop 0: invariant length >= 0 && 0 <= rangecount && rangecount <= runeLen(tokText(currentToken)) &&
+//@           sawSpaces == (exists k int :: {runeAt(tokText(currentToken), k)} 0 <= k && k < rangecount && runeAt(tokText(currentToken), k) == 32) &&
+//@           sawTabs == (exists k int :: {runeAt(tokText(currentToken), k)} 0 <= k && k < rangecount && runeAt(tokText(currentToken), k) == 9)
 //
 //@ func (ial *IndentAwareLexer) handleNewLineToken(currentToken antlr.Token)
 //@   requires ial.wf() && dyntype(currentToken) != 0 && tokType(currentToken) != YarnSpinnerLexerINDENT && tokType(currentToken) != YarnSpinnerLexerDEDENT
